@@ -2,6 +2,7 @@ package main
 
 import (
 	"bufio"
+	"bytes"
 	"encoding/json"
 	"fmt"
 	"io"
@@ -107,6 +108,16 @@ func c19Exec(c *Ctx, cs c19Case) (outcome string) {
 	if ok, why := c19V.valid(enc); !ok {
 		viol("re-encoding-invalid", why, enc)
 		outcome = "re-encoding-invalid"
+	}
+	// the same document with its member names written in \uXXXX escapes is the same JSON value
+	var swe spec.Swagger
+	if err := json.Unmarshal(escapeNames(cs.Doc), &swe); err != nil {
+		viol("valid-document-rejected", "member names written with \\u escapes: "+err.Error(), nil)
+	} else if ence, err := json.Marshal(swe); err == nil && !bytes.Equal(ence, enc) {
+		if ok, why := c19V.valid(ence); !ok {
+			viol("re-encoding-invalid", "member names written with \\u escapes: "+why, ence)
+			outcome = "re-encoding-invalid"
+		}
 	}
 	// expansion (in-document references, and references into the one external document the loader serves)
 	var sw2 spec.Swagger
